@@ -233,3 +233,53 @@ pub fn cli_stdout_matches(stdout: &str, log_lines: &[String], value: Option<&Val
     }
     Ok(())
 }
+
+// ------------------------------------------------------------------------------------------------ fuzz corpus replay
+
+pub fn hex_decode(h: &str) -> Vec<u8> {
+    (0..h.len() / 2).filter_map(|i| u8::from_str_radix(&h[2 * i..2 * i + 2], 16).ok()).collect()
+}
+
+pub fn hex_encode(b: &[u8]) -> String {
+    b.iter().map(|x| format!("{:02x}", x)).collect()
+}
+
+/// every committed seed and saved artifact of a fuzz target, as enumerated cases
+pub fn fuzz_corpus_cases(target: &str) -> Vec<Value> {
+    let root = crate::corpus::root();
+    let mut out = vec![];
+    for dir in [root.join("fuzz").join("seeds").join(target), root.join("fuzz").join("artifacts").join(target)] {
+        let mut files: Vec<std::path::PathBuf> = match std::fs::read_dir(&dir) {
+            Ok(rd) => rd.filter_map(|e| e.ok().map(|e| e.path())).filter(|p| p.is_file()).collect(),
+            Err(_) => vec![],
+        };
+        files.sort();
+        for f in files {
+            if let Ok(bytes) = std::fs::read(&f) {
+                out.push(json!({"target": target, "file": f.file_name().map(|n| n.to_string_lossy().to_string()).unwrap_or_default(), "hex": hex_encode(&bytes)}));
+            }
+        }
+    }
+    out
+}
+
+pub fn check_fuzz_case(case: &Value, obs: &mut Obs) -> Result<(), String> {
+    let bytes = hex_decode(case["hex"].as_str().unwrap_or(""));
+    let r = match case["target"].as_str().unwrap_or("") {
+        "fz_total" => crate::fuzzbody::total(&bytes),
+        "fz_diff" => crate::fuzzbody::diff(&bytes),
+        other => return Err(format!("oracle_broken: unknown fuzz target {}", other)),
+    };
+    obs.evals += 1;
+    match r {
+        Ok(class) => {
+            if class == "value" || class == "error" {
+                obs.nt(&format!("corpus input evaluated: {}", class));
+            } else {
+                obs.class(&format!("corpus input: {}", class));
+            }
+            Ok(())
+        }
+        Err(m) => Err(format!("{} (corpus file {})", m, case["file"].as_str().unwrap_or("?"))),
+    }
+}
